@@ -13,6 +13,8 @@ type tabEntry struct {
 var boundsTable = map[string]tabEntry{
 	"executor.(*DepthExecutor).Execute$4/‹[]*executor.DepthExecutorResponse›[‹*executor.groupResponse›.index]": {1,
 		"positional reducer: the accumulator is made with len(groupedRequests) slots and every result carries an index drawn from lo.Range(len(groupedRequests)) — both checked by R9b (class POS-index) on every run"},
+	"executor.(*DepthExecutor).parseRespones$2/‹[]*executor.DepthExecutorResponse›[‹*executor.indexedResponse›.index]": {1,
+		"positional reducer: the accumulator is made with len(queryerResponses) slots and every result carries an index drawn from lo.Range(len(queryerResponses)) — both checked by R9b (class POS-index) on every run"},
 	"executor.(*DepthExecutor).executeRequests/‹[]*executor.ExecutionRequest›[‹int›]": {2,
 		"both index values were recorded from `range ers` in this very call (iMap.Set(i, …) and nillResps[i]) and ers is not re-sliced"},
 	"executor.ExtractValueModifyingSource/‹[]interface{}›[‹*executor.PointData›.Index]": {2,
@@ -76,9 +78,9 @@ var nilTable = map[string]tabEntry{
 // errTable: deliberate drops / fallbacks, confirmed by reading.
 var errTable = map[string]tabEntry{
 	"planner.extractSelectionSet/test (*planner.PlanningContext).GetURL": {1,
-		"deliberate fallback (comment in the source): a field GetURL knows no route for stays in the current step. Routes exist for every field of every object type except `id`, the relay `node` field and built-ins (TypeURLMap.SetFromSchema; R13c/R13d), and interface fields have none by construction — so the fallback sees `id` and interface fields only. Before the repair of isNodeField (F16) it also saw service fields shaped like the node field, and the swallowed error hid that they had no route (audit: this line was wrong then; reproduction kept in repro/audit2__root__audit_route_test.go.txt)"},
+		"deliberate fallback (comment in the source): a field GetURL knows no route for stays in the current step. Routes exist for every field of every object type except `id`, built-ins and the relay `node` lookup OF QUERY (TypeURLMap.SetFromSchema; R13c/R13d, and R13d.scope: every place that sets the node lookup aside also tests for the Query type), and interface fields have none by construction — so the fallback sees `id` and interface fields only. Twice this line was wrong and the swallowed error hid a field without a route: service fields shaped like the node field (F16, repro/audit2__root__audit_route_test.go.txt) and a `node(id: ID!): Node` field on an ordinary type (second audit, repro/audit4__root__audit4_route_test.go.txt); both repaired"},
 	"queryer.(*MultiOpQueryer).Subscribe$2/test encoding/json.Unmarshal": {2,
-		"two fallback decodings in the upstream reader: a frame that does not decode as a data frame is tried as an error frame (and that second failure is reported to the subscriber); an error frame whose payload is not a single error object falls back to a generic error that is reported as well — in neither case does a failure go unreported"},
+		"two fallback decodings in the upstream reader: a frame that does not decode as a data frame is tried as an error frame — that second failure is reported to the subscriber, and so is a frame which decodes as an error list that carries no error (`payload: []`, `[null]`: second audit, repro/audit4__queryer__audit4_frame_test.go.txt; repaired, R12b.err.empty); an error frame whose payload is not a single error object falls back to a generic error that is reported as well"},
 	"format.(*Formatter).write/drop io.Writer.Write": {1,
 		"the writer is always the bytes.Buffer installed by BufferedFormatter.FormatSelectionSet; bytes.Buffer.Write never returns an error"},
 	"introspection.(*IntrospectionResolver).resolveType/test (*gqlparser/ast.Value).Value": {2,
